@@ -75,14 +75,24 @@ def run(eng, rep, tier):
 
     # -------------------------------------------------------------- C17.2 options and permutations
     ri = prog.method("Rules", "__init__")
-    handled = set()
-    for sub in ast.walk(ri.node):
-        if isinstance(sub, ast.Compare) and isinstance(sub.left, ast.Name) and sub.left.id == "optim" and \
-                isinstance(sub.ops[0], ast.Eq) and isinstance(sub.comparators[0], ast.Constant):
-            handled.add(sub.comparators[0].value)
+    # decided by analysing the constructor once per option value: for optim = 1..8 some method of the ordering helper
+    # is called and its result stored as the rule list; for 0 none is (the given order is kept) - wherever the option
+    # chain lives (constructor, private helper, table)
+    from ..av import AV as _AV
+    RULES_Q = prog.cls("Rules").qname
+    handled, missing = set(), []
+    for k in range(0, 9):
+        rules_av = _AV(types=frozenset({"list"}), alias=frozenset({("p:rules", ())}))
+        sk = interp.run_entry(ri, RULES_Q, args=[rules_av, _AV(types=frozenset({"int"}), const=k)])
+        ordered = [ev for ev, _ in events(sk, "call", own=True)
+                   if ev.callee and rocls is not None and ev.callee.startswith(rocls.qname + ".")
+                   and not ev.callee.endswith(".__init__")]
+        if ordered:
+            handled.add(k)
     ob.decide("R7", "C17.2", ri, "optim-1..8-handled", handled == set(range(1, 9)),
-              "every ordering option 1..8 has a branch (0 keeps the given order)",
-              "ordering options handled: %s (expected 1..8)" % sorted(handled), None, site=site_of(prog, ri, ri.node))
+              "every ordering option 1..8 reaches an ordering method (0 keeps the given order)",
+              "ordering options that reach an ordering method: %s (expected exactly 1..8)" % sorted(handled), None,
+              site=site_of(prog, ri, ri.node))
     if rocls is not None:
         RL = ("self", ("rules",))
         for name, f in sorted(rocls.methods.items()):
@@ -124,10 +134,13 @@ def run(eng, rep, tier):
               all(has_fact(ev.facts, "is_production()", True) for ev in prd),
               "duplication and production rules are both processed, each under its kind test",
               "the marking loop does not process both duplication and production rules", se, site=site_of(prog, fe, fe.node))
+    # the continuation flag of the marking loop derives from the results of both processing routines (through whatever
+    # locals, tuple unpacking or merged tails the code uses)
+    from .flow import name_origins
     flags = {w.test.id for w in ast.walk(fe.node) if isinstance(w, ast.While) and isinstance(w.test, ast.Name)}
-    ors = [s_ for s_ in ast.walk(fe.node) if isinstance(s_, ast.AugAssign) and isinstance(s_.op, ast.BitOr)
-           and isinstance(s_.target, ast.Name) and s_.target.id in flags]
-    srcs = {ast.unparse(s_.value).split("[")[0] for s_ in ors}
+    orig = name_origins(fe.node)
+    srcs = {o for f_ in flags for o in orig.get(f_, set())
+            if o in ("call:_duplication_processing", "call:_production_process")}
     ob.decide("R7", "C17.4", fe, "continues-while-either-changed", len(srcs) >= 2,
               "the continuation flag accumulates the change flags of both kinds",
               "the loop's continuation flag ignores one rule kind: the fixpoint stops early", None, site=site_of(prog, fe, fe.node))
